@@ -1073,7 +1073,13 @@ class Unit:
                 if t.kind == "p" and t.text in "([": depth += 1
                 elif t.kind == "p" and t.text in ")]": depth -= 1
                 elif t.kind == "p" and t.text == "{" and depth == 0:
-                    end = match_close(toks, j); break
+                    end = match_close(toks, j)
+                    # an `if` goes on through its `else` / `else if` branches
+                    nx = end + 1
+                    while nx < hi and toks[nx].kind not in CODE: nx += 1
+                    if nx < hi and toks[nx].text == "else":
+                        j = nx + 1; continue
+                    break
                 j += 1
             if end is None:
                 raise AnchorLost("%s: fn %s: expression at `%s` has no block" % (rel, fn_name, at))
